@@ -1,6 +1,6 @@
 (* Properties/C01.v — the parser accepts exactly the RFC 8259 language (model level). Pinned statements only. *)
 From SJ Require Import Base.Bytes Base.Utf8 Base.FloatB Gen.Tables Model.Read Model.Str Model.Num Model.Value Model.De Spec.Syntax Spec.Denote.
-From SJ Require Import Proofs.GrammarFinal Proofs.GrammarStr Proofs.GrammarNum.
+From SJ Require Import Proofs.GrammarFinal Proofs.GrammarStr Proofs.GrammarNum Proofs.StrSource.
 
 (* InLang cf bs (Spec/Denote.v): bs = ws* ++ render c ++ ws* for a well-formed syntax tree c (Spec/Syntax.v: the RFC 8259 grammar
    as a printer) whose strings decode to valid UTF-8 with every \u surrogate paired, whose numbers are in range
@@ -12,6 +12,11 @@ Proof. exact lang_slice. Qed.
 Theorem C01_reader : forall cf bs, Forall (fun b => (b < 256)%N) bs ->
   ((exists v, from_input (mkEnv RIo TEof cf) bs = Ok v) <-> InLang cf bs).
 Proof. exact lang_reader. Qed.
+
+(* from_str: the &str source does not re-validate UTF-8; on valid UTF-8 input (which a &str is) it accepts exactly the same language *)
+Theorem C01_str : forall cf bs, utf8_valid bs = true -> Forall (fun b => (b < 256)%N) bs ->
+  ((exists v, from_input (mkEnv RStr TEof cf) bs = Ok v) <-> InLang cf bs).
+Proof. intros cf bs Hu Hb. rewrite (from_input_str_slice cf bs Hu). apply lang_slice; exact Hb. Qed.
 
 (* the number clause: a well-formed number literal is rejected only as out of range, never under arbitrary_precision *)
 Theorem C01_number_rejection_is_range : forall E positive n rst off pk d,
@@ -45,5 +50,6 @@ Proof. vm_compute. reflexivity. Qed.
 
 Print Assumptions C01_slice.
 Print Assumptions C01_reader.
+Print Assumptions C01_str.
 Print Assumptions C01_number_rejection_is_range.
 Print Assumptions C01_string_rejection.
